@@ -528,7 +528,7 @@ class FileIndex(Index):
             if len(segments) == 0:
                 # This index has no segments! Return an EmptyReader object,
                 # which simply returns empty or zero to every method
-                return EmptyReader(schema)
+                return EmptyReader(schema, generation=generation)
 
             if reuse:
                 # Put all atomic readers in a dictionary
